@@ -199,6 +199,31 @@ func init() {
 		x.doAssert(st, fr, a[0].(*Term), x.concStr(a[1], "Assert message"))
 		return nil, 1
 	}
+	intrinsics[zz+"And"] = func(x *Exec, st *State, fr *Frame, fn *ssa.Function, a []Value) (Value, int) {
+		sl := a[0].(SliceV)
+		var ts []*Term
+		for k := 0; k < sl.len; k++ {
+			ts = append(ts, x.load(st, x.sliceElemPtr(sl, k)).(*Term))
+		}
+		return ret1(x.tc.And(ts...))
+	}
+	intrinsics[zz+"Or"] = func(x *Exec, st *State, fr *Frame, fn *ssa.Function, a []Value) (Value, int) {
+		sl := a[0].(SliceV)
+		var ts []*Term
+		for k := 0; k < sl.len; k++ {
+			ts = append(ts, x.load(st, x.sliceElemPtr(sl, k)).(*Term))
+		}
+		return ret1(x.tc.Or(ts...))
+	}
+	intrinsics[zz+"Implies"] = func(x *Exec, st *State, fr *Frame, fn *ssa.Function, a []Value) (Value, int) {
+		return ret1(x.tc.Implies(a[0].(*Term), a[1].(*Term)))
+	}
+	intrinsics[zz+"IteInt"] = func(x *Exec, st *State, fr *Frame, fn *ssa.Function, a []Value) (Value, int) {
+		return ret1(x.tc.Ite(a[0].(*Term), a[1].(*Term), a[2].(*Term)))
+	}
+	intrinsics[zz+"IteStr"] = func(x *Exec, st *State, fr *Frame, fn *ssa.Function, a []Value) (Value, int) {
+		return ret1(x.strIte(a[0].(*Term), a[1].(*StrV), a[2].(*StrV)))
+	}
 	intrinsics[zz+"Reach"] = func(x *Exec, st *State, fr *Frame, fn *ssa.Function, a []Value) (Value, int) {
 		x.ReachTags[x.concStr(a[0], "Reach")]++
 		return nil, 1
@@ -574,6 +599,9 @@ func (x *Exec) doAssert(st *State, fr *Frame, c *Term, msg string) {
 	site := pos + ": " + msg
 	x.AssertSites[site]++
 	x.Obligations++
+	if len(st.pc) > 0 || !c.IsTrue() {
+		x.NontrivPaths[fmt.Sprintf("%s|%d", site, pcHash(st.pc))] = true
+	}
 	if c.IsTrue() {
 		x.Discharged++
 		x.Trivial++
@@ -585,7 +613,6 @@ func (x *Exec) doAssert(st *State, fr *Frame, c *Term, msg string) {
 	switch r {
 	case Unsat:
 		x.Discharged++
-		x.NontrivPaths[fmt.Sprintf("%s|%d", site, pcHash(st.pc))] = true
 		if len(x.Samples) < 3 {
 			scr := x.sol.Script(q)
 			if len(scr) < 6000 {
@@ -593,6 +620,15 @@ func (x *Exec) doAssert(st *State, fr *Frame, c *Term, msg string) {
 			}
 		}
 	case Sat:
+		x.violSite[site]++
+		if x.violSite[site] > 3 {
+			// enough witnesses for this assertion site
+			if !x.feasible(st, c) {
+				panic(pathEnd{"assert always fails"})
+			}
+			x.assume(st, c)
+			return
+		}
 		m, ok := x.sol.Model(q)
 		if !ok {
 			x.inconclusive("assertion sat but no model: " + site)
